@@ -56,7 +56,17 @@ func runHistory(t *rapid.T, isValue bool) {
 	n := rapid.IntRange(1, 25).Draw(t, "writes")
 	readd, failBetween, suppressed := false, false, false
 	removed := map[string]bool{}
+	late := 0
 	for i := 0; i < n; i++ {
+		if late < 2 && i > 0 && rapid.IntRange(0, 7).Draw(t, "lateSub") == 0 {
+			// a subscriber that joins mid-history: its seed is the contents now, with the stored change times
+			ls := drawSubs(t, cfg)[0]
+			ls.UpdatesOnly = false
+			r.OpenSub(ls)
+			subs = append(subs, ls)
+			late++
+			lib.Ev.Class("history:subscriber joining mid-history")
+		}
 		op := rlib.GenOp(t, r, alphabet, false)
 		if rapid.IntRange(0, 5).Draw(t, "sameValue") == 0 && op.Val != nil {
 			// write the value that is already there (equivalence suppression / duplicate delivery)
